@@ -194,7 +194,7 @@ def plan(tier, seed):
     txt = geom.PRELUDE
     for k, (T, sx, sy, w, h) in enumerate(inst):
         n = "k_c11_dec_%s_ss%d%d_%dx%d" % (T, sx, sy, w, h)
-        txt += geom.decode_harness(T, sx, sy, w, h, n, 8 if T == "u8" else 10, symbolic_content=True, pointwise=True, ue=k % 2, ve=(k + 1) % 2, keepcmp=thorough, full=(k % 2 == 1), light=(not thorough or sx == 2 or sy == 2))
+        txt += geom.decode_harness(T, sx, sy, w, h, n, 8 if T == "u8" else 10, symbolic_content=True, pointwise=True, ue=k % 2, ve=(k + 1) % 2, keepcmp=thorough, full=(k % 2 == 1), light=(not thorough or sx == 2 or sy == 2 or w * h >= 8))
         hs.append(dict(name=n, family="decode", timeout=3000 if thorough else 1500, mem_gb=30, unwind_rules=geom.decode_rules(w, h), replay=dec_replay,
                        dec=dict(T=T, w=w, h=h, ssx=sx, ssy=sy, bd=8 if T == "u8" else 10), covers=["accepted", "decoded"],
                        obligation="decode %s %dx%d subsampling (%d,%d): output pixel (x,y) is bit-identical to the kernels applied to Y(x,y), U/V(x>>ss_x,y>>ss_y) computed from the visible window only - hence independent of stride, origin, padding and padding contents; source unmodified" % (T, w, h, sx, sy),
